@@ -272,6 +272,9 @@ func (m *xccMachine) setup(c *xccCase, script int, out *xccOut) *xccConsole {
 				default:
 					comp := rc.fb.packColor32(idx)
 					copy(rc.raw[o:], comp[:B])
+					if B == 4 && rng.Intn(6) == 0 { // same colour bytes, different top byte
+						rc.raw[o+3] = byte(rng.Intn(256))
+					}
 				}
 			}
 		}
